@@ -819,6 +819,25 @@ def gen_replay_orphan(rng):
     return sc
 
 
+def gen_error_replay(rng):
+    """Branches that fail with unusual error texts (empty, non-ASCII, a lone surrogate), reported in the batch result, and a
+    later suspension: the result is delivered again on replay and must carry the same errors."""
+    nb = rng.choice([2, 3])
+    branches = []
+    for i in range(nb):
+        if i == 0 or rng.random() < 0.5:
+            msg = rng.choice(["", "", "r\u00e9sum\u00e9-\u65e5\u672c", "report-\udcff.csv", "bad"])
+            branches.append([{"a": "step", "out": {"err": {"cls": rng.choice(["Boom", "E"]), "msg": msg}}, "yield": 1}] if rng.random() < 0.6
+                            else [{"a": "raise", "cls": "Boom", "msg": msg}])
+        else:
+            branches.append([{"a": "step", "out": {"ok": rng.choice(["i5", "s", "None"])}, "yield": 1}])
+    sc = {"blocks": [{"kind": rng.choice(["map", "parallel"]), "branches": branches, "max_concurrency": rng.choice([None, 1])},
+                     {"kind": "seq", "actions": [{"a": "wait", "secs": 1}]}], "completion": rng.choice([{}, {"count": 3}, {"pct": 100}])}
+    if rng.random() < 0.4:
+        sc["ckpt_limit"] = rng.choice([30, 60])
+    return sc
+
+
 def gen_large_early(rng):
     """Early decision with branches still unstarted or running, a result over the (patched) checkpoint limit, and a later
     suspension: the batch is rebuilt from its children on replay."""
